@@ -696,6 +696,38 @@ def rule_SB16(rep, prog):
         rep.unknown(rid, "dispatch_data_create_map: fewer than 2 paths from the flatten call to the size report (%d)" % n)
 
 
+def rule_AI17(rep, prog):
+    rid = rep.rule("C13-AI17", "the single-record shortcut of dispatch_data_create_subrange is taken only when the slice ENDS inside the record it starts in: the recursion "
+                   "into records[i].data_object is reached under (offset within the record) + length <= records[i].length - comparing the length alone lets a "
+                   "slice that spills into the next record be cut from the first record's leaf (bytes the object does not contain, or a short result)", floor=1)
+    fn = prog.fn("dispatch_data_create_subrange")
+    rep.saw(fn)
+    n = 0
+    for c in calls_named(fn, fn.name):
+        o = fn.inst(c.ops[0])
+        if o is None or o.op != "load" or "data_object" not in prog.fields(o):
+            continue
+        n += 1
+        # the offset handed down is records[i].from + OFF: OFF is the offset within the record; the length handed down is LEN
+        lf = linform(fn, c.ops[1])
+        offs = [a for a, co in lf.items() if co == 1 and isinstance(a, tuple) and not (a[0] == "i" and fn.insts[a[1]].op == "load" and "from" in prog.fields(fn.insts[a[1]]))]
+        LEN = tuple(c.ops[2][:2])
+        ok = False
+        for p_, a, b in edge_relations(fn, paths.dom_ctx(fn, c)):
+            bl = fn.inst(list(b)) if b[0] == "i" else None
+            if p_ != "ule" or bl is None or bl.op != "load" or "length" not in prog.fields(bl):
+                continue
+            la = linform(fn, list(a))
+            if la.get(LEN) == 1 and any(la.get(x) == 1 for x in offs) and len([k_ for k_ in la if k_ != 1]) == 2:
+                ok = True
+        rep.require(rid, ok, c.loc, fn.name, "single-record-shortcut-ignores-offset",
+                    "dispatch_data_create_subrange recurses into one record's leaf without having established offset-in-record + length <= that record's length: a slice "
+                    "that starts inside the record at a non-zero offset and spills into the next one is cut from the first leaf alone - wrong bytes (leaf bytes that are "
+                    "not part of the represented string) or a clamped, short result", sample={"site": c.loc})
+    if n < 1:
+        rep.unknown(rid, "dispatch_data_create_subrange: recursion into a single record not found")
+
+
 def rule_SB8(rep, prog):
     rid = rep.rule("C13-SB8", "record counting goes through the two helpers: the raw num_records field (0 for a leaf) is read only by _dispatch_data_leaf / "
                    "_dispatch_data_num_records; the public apply entry points both return early for an empty object; a one-record object's record length equals "
@@ -922,6 +954,8 @@ def run(rep, tier="quick", srcdir=None, only=None):
         rule_OD14(rep, prog)
     if want("C13-SB16"):
         rule_SB16(rep, prog)
+    if want("C13-AI17"):
+        rule_AI17(rep, prog)
 
 
 MANIFEST = {
